@@ -1,7 +1,8 @@
 (* C11 — including a file is the same as pasting its lines at that point. *)
 From Coq Require Import List NArith Bool String.
 Import ListNotations.
-Require Import St Loop Doc.
+Require Import St Exp Proc1 Proc2 Proc3 Ctl Loop Doc IfProofs FuelProofs IncludeProofs.
+Require PathClean.
 Open Scope string_scope.
 Definition run_with (f : string) (src : string) (extra : list (string * string)) (libs : list string) : st :=
   compile_source (runes f) 0 (world_of (runes src) (map (fun p => (runes (fst p), runes (snd p))) extra) (map runes libs) false) main_path.
@@ -26,3 +27,25 @@ two
 two
 ")] ["lib1"; "lib2"])) ["xhtml"; "latex"; "mom"; "markdown"] = true.
 Proof. vm_compute. reflexivity. Qed.
+
+(* An executed include line of a frundis source (found, not already being processed, parsing) walks the blocks of the
+   file with the very dispatcher that walks the blocks around it, in the state the preceding blocks left -- scopes,
+   definitions, variables and counters are simply components of that state -- and afterwards only restores the current
+   file name, the include stack and the current-block flag.  Any fuel above the room left gives the same result. *)
+Theorem C11_include_is_walk : forall d c s name path src bs a0 o s1 s3,
+  CInv c -> (avail c < d)%nat ->
+  parse_opts specOptIncludeFile (args s) s = (o, s1) ->
+  opt "f" o = None -> po_args o = a0 :: nil -> flag "as-is" o = false ->
+  inlines_text a0 s1 = (name, s3) ->
+  search_inc_file name c = (path, true) ->
+  existsb (str_eqb (PathClean.clean path)) (incstack c) = false ->
+  fs_get path c = Some src -> parse src = (bs, None) ->
+  macro_include (run_blocks d) (c, s) = leave_file c s3 (walk (run_blocks d) bs (enter_file path bs (c, s3))).
+Proof. exact include_is_walk. Qed.
+(* pasting: a list of blocks is processed as its parts in turn *)
+Theorem C11_paste_is_sequencing : forall pb pre mid post cs, panicked (snd cs) = None ->
+  panicked (snd (walk pb pre cs)) = None -> panicked (snd (walk pb mid (walk pb pre cs))) = None ->
+  walk pb (pre ++ mid ++ post) cs = walk pb post (walk pb mid (walk pb pre cs)).
+Proof. exact walk_concat. Qed.
+Print Assumptions C11_include_is_walk.
+Print Assumptions C11_paste_is_sequencing.
